@@ -261,8 +261,12 @@ fn lookups(rep: &mut Report, shard: u64, nshards: u64) {
             }
             let d = &c.properties[pn];
             let ty = dbwalk::vtype(d).unwrap_or(VariantType::Bool);
+            let second = InstanceBuilder::new(cname);
+            let second_ref = second.referent();
             let v = match ty {
-                VariantType::Ref => Variant::Ref(Ref::none()),
+                // a real reference (to the second instance of the file), so that the readers' deferred
+                // referent resolution has to land under the right name too
+                VariantType::Ref => Variant::Ref(second_ref),
                 // an actual item of the property's enum (arbitrary numbers are C15's business)
                 VariantType::Enum => {
                     let item = match &d.data_type {
@@ -278,7 +282,7 @@ fn lookups(rep: &mut Report, shard: u64, nshards: u64) {
             let replay = json!({"cmd": "c16", "class": cname, "prop": pn});
             // a second, bare instance of the class: the binary writer fills its gap from the database default,
             // looked up from whatever spelling the first instance used
-            let dom = WeakDom::new(InstanceBuilder::new("DataModel").with_child(InstanceBuilder::new(cname).with_property(pn, v)).with_child(InstanceBuilder::new(cname)));
+            let dom = WeakDom::new(InstanceBuilder::new("DataModel").with_child(InstanceBuilder::new(cname).with_property(pn, v)).with_child(second));
             let roots = dom.root().children().to_vec();
             // what the database itself says about this name (independent walk): does it travel, and under which name does it come back
             let travels = dbwalk::travel(db, cname, pn).filter(|t| {
@@ -303,6 +307,19 @@ fn lookups(rep: &mut Report, shard: u64, nshards: u64) {
                                     if let Some(inst) = first {
                                         if !inst.properties.contains_key(&rbx_dom_weak::ustr(&t.back_name)) {
                                             return Err(t.back_name.clone());
+                                        }
+                                        if ty == VariantType::Ref {
+                                            let want = d.root().children().get(1).copied();
+                                            match inst.properties.get(&rbx_dom_weak::ustr(&t.back_name)) {
+                                                Some(Variant::Ref(r)) if Some(*r) == want => {}
+                                                other => return Err(format!("REF:{} holds {:?} instead of the reference to the second instance", t.back_name, other)),
+                                            }
+                                            if inst.properties.len() > 1 + inst.properties.contains_key(&rbx_dom_weak::ustr("Name")) as usize && fmt == "xml" {
+                                                let extra: Vec<String> = inst.properties.keys().map(|k| k.to_string()).filter(|k| k != &t.back_name && k != "Name").collect();
+                                                if !extra.is_empty() {
+                                                    return Err(format!("REF:{} came back together with stray properties {:?}", t.back_name, extra));
+                                                }
+                                            }
                                         }
                                     }
                                     let second = d.root().children().get(1).and_then(|c| d.get_by_ref(*c));
@@ -330,6 +347,12 @@ fn lookups(rep: &mut Report, shard: u64, nshards: u64) {
                 });
                 match res {
                     Err(p) => rep.violation(&format!("C16:lookup:{}:{}", fmt, panic_sig(&p)), &format!("{}.{} ({}): {}", cname, pn, fmt, p.msg), replay.clone(), J::Null),
+                    Ok((true, Err(e))) if e.starts_with("LOST:REF:") => rep.violation(
+                        &format!("C16:ref-lookup-lands-elsewhere:{}", fmt),
+                        &format!("{}.{} ({}): {}", cname, pn, fmt, &e[9..]),
+                        replay.clone(),
+                        J::Null,
+                    ),
                     Ok((true, Err(e))) if e.starts_with("LOST:DEFAULT:") => rep.violation(
                         &format!("C16:default-lookup-failed:{}.{}", cname, pn),
                         &format!("{}.{}: first met under this spelling, {}", cname, pn, &e[13..]),
